@@ -130,6 +130,15 @@ Stats == PrintT(<<"STATS", [nodes |-> NLog,
    lsrChangesMulti |-> Count(LAMBDA nd : nd.a = "LsrChange" /\ Log[nd.parent].st.lsrOn[nd.args.app] /\ Pre(nd).nf[nd.args.app][ST] >= 10
                                           /\ Cardinality({i \in 1..Len(Pre(nd).lockers) : Pre(nd).lockers[i].app = nd.args.app /\ Pre(nd).lockers[i].net >= 50
                                                                                             /\ Log[nd.parent].st.lage[i] >= 2592000}) >= 2),
+   surplusDueDrained |-> Count(LAMBDA nd : nd.a = "Block" /\ \E k \in 1..Len(Log[nd.parent].st.eng) : LET e == Log[nd.parent].st.eng[k] IN
+                                   e.kind = "surplus" /\ e.nb > 0 /\ Pre(nd).t + nd.args.dt > e.endT /\ Pre(nd).nf[e.app][ST] < e.lot
+                                   /\ Pre(nd).bal["col"][ST] >= e.lot /\ SumApps(Pre(nd).nf, ST) > Pre(nd).nf[e.app][ST]),
+   surplusDueFunded |-> Count(LAMBDA nd : nd.a = "Block" /\ \E k \in 1..Len(Log[nd.parent].st.eng) : LET e == Log[nd.parent].st.eng[k] IN
+                                   e.kind = "surplus" /\ e.nb > 0 /\ Pre(nd).t + nd.args.dt > e.endT /\ Pre(nd).nf[e.app][ST] >= e.lot),
+   debtDueWithLockers |-> Count(LAMBDA nd : nd.a = "Block" /\ Len(Pre(nd).lockers) > 0 /\ \E k \in 1..Len(Log[nd.parent].st.eng) : LET e == Log[nd.parent].st.eng[k] IN
+                                   e.kind = "debt" /\ e.nb > 0 /\ Pre(nd).t + nd.args.dt > e.endT),
+   savingsDuringAuction |-> Count(LAMBDA nd : nd.a \in LockerActs \ {"CreateLocker"} /\ Len(Log[nd.parent].st.eng) > 0 /\ LIdx(Pre(nd).lockers, nd.args.id) # 0
+                                   /\ Log[nd.parent].st.lsrOn[LockerApp(nd)] /\ Log[nd.parent].st.lage[LIdx(Pre(nd).lockers, nd.args.id)] >= 2592000),
    rewardDue |-> Count(LAMBDA nd : nd.a \in LockerActs \ {"CreateLocker"} /\ LIdx(Pre(nd).lockers, nd.args.id) # 0 /\ nd.args.app = LockerApp(nd)
                                     /\ Log[nd.parent].st.lsrOn[nd.args.app] /\ Pre(nd).nf[nd.args.app][ST] >= 10
                                     /\ Pre(nd).lockers[LIdx(Pre(nd).lockers, nd.args.id)].net >= 50 /\ Log[nd.parent].st.lage[LIdx(Pre(nd).lockers, nd.args.id)] >= 2592000),
